@@ -233,6 +233,32 @@ func VerifC01StreamingOrigin() {
 	vf.Reach("done")
 }
 
+// VerifC01PartialNext: the bytes that arrive with a request may include the beginning of the
+// next one (a client that sends the head of its next request early and the rest once it has
+// the answer). The first request is complete, so its response reaches the client whether or
+// not the second one is ever completed: here the client then stays idle, or goes away.
+func VerifC01PartialNext() {
+	r1 := zzreqSpec{method: "GET", path: "/a", hval: "h1"}
+	if vf.Choice("first-has-body", 2) == 1 {
+		r1 = zzreqSpec{method: "POST", path: "/a", hval: "h1", body: []byte("b1"), chunked: vf.Choice("first-chunked", 2) == 1}
+	}
+	r2 := zzreqSpec{method: "POST", path: "/b", hval: "h2", body: []byte("later")}.wire()
+	cut := 1 + vf.Choice("bytes-of-the-next-request-already-there", len(r2)-1)
+	goesAway := vf.Choice("client-goes-away", 2) == 1
+	conn := zznewClientConn("client", goesAway, append(r1.wire(), r2[:cut]...))
+	o := &zzorigin{}
+	o.answer = func(i int, req *http.Request) (*http.Response, error) {
+		return zzrawResponse(zzresSpec{status: 200, hval: "x", framing: vf.Choice("origin-framing", 2), body: []byte("first")}.wire(), req)
+	}
+	p := NewProxy()
+	p.SetRoundTripper(o)
+	zzserveConn(p, conn)
+	vf.Assert(len(o.seen) >= 1, "the-complete-request-reaches-the-origin")
+	got := zzclientView(conn.out.Bytes(), []string{r1.method})
+	vf.Assert(len(got) >= 1 && got[0].ok && got[0].status == 200 && string(got[0].body) == "first", "response-to-the-complete-request-is-not-withheld")
+	vf.Reach("done")
+}
+
 type zzroundTripFunc func(*http.Request) (*http.Response, error)
 
 func (f zzroundTripFunc) RoundTrip(r *http.Request) (*http.Response, error) { return f(r) }
